@@ -59,25 +59,17 @@ impl Segment {
         Ok(())
     }
 
-    fn store_offset_and_timestamp_index_for_batch(
-        &mut self,
-        batch_last_offset: u64,
-        batch_max_timestamp: u64,
-    ) -> Index {
+    fn index_for_batch(&self, batch_last_offset: u64, batch_max_timestamp: u64) -> Index {
         let relative_offset = (batch_last_offset - self.start_offset) as u32;
         trace!(
             "Storing index for relative_offset: {relative_offset}, start_offset: {}",
             self.start_offset
         );
-        let index = Index {
+        Index {
             offset: relative_offset,
             position: self.last_index_position,
             timestamp: batch_max_timestamp,
-        };
-        if let Some(indexes) = &mut self.indexes {
-            indexes.push(index);
         }
-        index
     }
 
     pub async fn persist_messages(
@@ -90,12 +82,12 @@ impl Segment {
 
         let mut batch_accumulator = self.unsaved_messages.take().unwrap();
         if batch_accumulator.is_empty() {
+            self.unsaved_messages = Some(batch_accumulator);
             return Ok(0);
         }
         let batch_max_offset = batch_accumulator.batch_max_offset();
         let batch_max_timestamp = batch_accumulator.batch_max_timestamp();
-        let index =
-            self.store_offset_and_timestamp_index_for_batch(batch_max_offset, batch_max_timestamp);
+        let index = self.index_for_batch(batch_max_offset, batch_max_timestamp);
 
         let unsaved_messages_number = batch_accumulator.unsaved_messages_count();
         trace!(
@@ -105,16 +97,18 @@ impl Segment {
             self.partition_id
         );
 
-        let batch = batch_accumulator.materialize_batch_and_update_state();
+        // The messages stay in the buffer until they are in both files: when a write fails, they
+        // are still there (readable, and written by the next attempt) and nothing of the failed
+        // attempt stays behind in the files.
+        let batch = batch_accumulator.materialize_batch();
         let batch_size = batch.get_size_bytes();
-        if batch_size > 0 {
-            self.unsaved_messages = Some(batch_accumulator);
-        }
         let confirmation = match confirmation {
             Some(val) => val,
             None => self.config.segment.server_confirmation,
         };
-        let saved_bytes = self
+        let log_size_before = self.last_index_position as u64;
+        let index_size_before = self.index_size_bytes.load(Ordering::Acquire);
+        let mut saved = self
             .log_writer
             .as_mut()
             .unwrap()
@@ -122,14 +116,45 @@ impl Segment {
             .await
             .with_error_context(|error| {
                 format!("Failed to save batch of size {batch_size} for {self}. {error}",)
-            })?;
-
-        self.index_writer
-            .as_mut()
-            .unwrap()
-            .save_index(index)
-            .await
-            .with_error_context(|error| format!("Failed to save index for {self}. {error}"))?;
+            });
+        if saved.is_ok() {
+            if let Err(error) = self
+                .index_writer
+                .as_mut()
+                .unwrap()
+                .save_index(index)
+                .await
+                .with_error_context(|error| format!("Failed to save index for {self}. {error}"))
+            {
+                saved = Err(error);
+            }
+        }
+        let saved_bytes = match saved {
+            Ok(saved_bytes) => saved_bytes,
+            Err(error) => {
+                if confirmation == Confirmation::Wait {
+                    let _ = self
+                        .log_writer
+                        .as_mut()
+                        .unwrap()
+                        .truncate(log_size_before)
+                        .await;
+                }
+                let _ = self
+                    .index_writer
+                    .as_mut()
+                    .unwrap()
+                    .truncate(index_size_before)
+                    .await;
+                self.unsaved_messages = Some(batch_accumulator);
+                return Err(error);
+            }
+        };
+        if let Some(indexes) = &mut self.indexes {
+            indexes.push(index);
+        }
+        batch_accumulator.clear();
+        self.unsaved_messages = Some(batch_accumulator);
 
         self.last_index_position += batch_size.as_bytes_u64() as u32;
         self.size_bytes += IggyByteSize::from(RETAINED_BATCH_HEADER_LEN);
